@@ -16,7 +16,7 @@ MANIFEST = dict(
     design_ref="DESIGN.md §5 C19",
     technique="Coq proof: symbolic evaluation of the codec model on the spec layout of an arbitrary well-formed TPDU (lists of any admissible length by induction, calendar and octet domains by kernel sweep) + complete 256-row tables from the code + vm_compute correspondence",
     text="Theorems in coq/Properties/C19.v: for every well-formed SMS-DELIVER / SMS-SUBMIT value of the GSM 03.40 layout model outside the listed known classes, "
-         "Unmarshal then Marshal reproduces the octets and the decoded structure carries the standard's values; complete tables for relative validity periods and first octets; "
-         "refutation witnesses for the known classes that remain (alphanumeric address of 7 septets, of 8 septets ending in CR, D16) and for the pre-fix code (D19, D20, D21 length, D22, D23, D24).",
+         "Unmarshal then Marshal reproduces the octets and the decoded structure carries the standard's values, the first-octet parameters under their Go field names included (C19_deliver_flags, C19_submit_flags); complete tables for relative validity periods and first octets; "
+         "refutation witnesses for the known classes that remain (alphanumeric address of 7 septets, of 8 septets ending in CR, D16, DeliverFlags.ReplyPath/UDHIndicator on unused bits) and for the pre-fix code (D19, D20, D21 length, D22, D23, D24).",
     note="Trusted: Coq kernel + vm_compute; the hand-transcribed spec; dumper and printers; Go library code. No axioms.",
 )
